@@ -223,7 +223,7 @@ theorem builtin_plugins_keep_objects (p : Plugin) (hp : ∀ t, p ≠ .table t) :
   processT_objOp p hp
 
 /-- **A query that is not a JSON object is answered with an error response that echoes it**, whatever the
-plugins (fix adb1ee2; it used to be answered with the placeholder request, an array was split into several
+plugins (fix 6b89952; it used to be answered with the placeholder request, an array was split into several
 queries when a plugin was configured, and `[]` got no response at all) -/
 theorem non_object_query_echoed (plugins : List Plugin) (respond : Json → Json) (q : Json)
     (h : q.isObject = false) :
